@@ -1228,8 +1228,15 @@ void reb_integrator_whfast_part2(struct reb_simulation* const r){
             p_j[index].y += r->dt/2.*p_j[index].vy;
             p_j[index].z += r->dt/2.*p_j[index].vz;
             reb_particles_transform_jacobi_to_inertial_posvel(particles_var1, p_j+index, particles, N_real, N_active);
-            if (r->calculate_megno){
-                reb_calculate_acceleration_var(r);
+        }
+        if (r->calculate_megno){
+            // The variational accelerations of ALL configurations are recomputed (and zeroed first) by this call, so it
+            // must come once, before the 0-1 terms are added; calling it inside the loop over configurations erased the
+            // 0-1 term of every configuration but the last one (MEGNO was wrong unless its configuration was the last).
+            reb_calculate_acceleration_var(r);
+            for (int v=0;v<r->N_var_config;v++){
+                struct reb_variational_configuration const vc = r->var_config[v];
+                struct reb_particle* const particles_var1 = particles + vc.index;
                 const double dx = particles[0].x - particles[1].x;
                 const double dy = particles[0].y - particles[1].y;
                 const double dz = particles[0].z - particles[1].z;
